@@ -127,6 +127,9 @@ func C07(ctx *core.Ctx, r *core.Report) {
 	noValueTextEquality(ctx, r)
 	c07DepthFromBase(ctx, r)
 	postConstraintsAlwaysRun(ctx, r)
+	c07TargetBeforeUse(ctx, r)
+	c07EditBaseIsRequestBase(ctx, r)
+	c07AlternativesFlushed(ctx, r)
 	c07LeadingGroupKept(ctx, r)
 	r.Count("instances:append-aliasing(found)", appendAliasing(ctx, r, scopeFuncs(ctx, "node")))
 	r.Count("instances:ineffective-break(found)", ineffectiveBreak(ctx, r, "node"))
